@@ -163,9 +163,21 @@ tanks then reservoirs for the sources), `run_sim` seeds the previously-isolated 
 statement skeletons `initGraph` / `getCsrDataIndex` / `updateGraph` / `getIsolated` transliterate, the head of `run_sim` seeds,
 builds the graph and takes the reference points unconditionally and in that order, and the loop body of `run_sim` calls them in the order `runPass` is written for. -/
 theorem python_shape_is_reference :
-    Gen.iter = Prog.refIter ∧ Gen.updateToks = Prog.refUpdateToks ∧ Gen.isolatedToks = Prog.refIsolatedToks ∧
+    Gen.iter = Prog.refIter ∧ Gen.updateProg = Prog.refUpdate ∧ Gen.isolatedToks = Prog.refIsolatedToks ∧
     Gen.initToks = Prog.refInitToks ∧ Gen.csrIndexToks = Prog.refCsrIndexToks ∧ Gen.headToks = Prog.refHeadToks ∧
     Gen.loopToks = Prog.refLoopToks := by decide
+
+/-- **update_program_means_updateGraph**: interpreting the statement tree parsed from `_update_internal_graph` (change loop with its
+Closed / not-Closed branches, the pass over node pairs with several links: first link zeroed, every non-Closed link sets 1, then
+`reset_reference_point('graph')`) on ANY simulator state that meets the static contract gives exactly `updateGraph`. -/
+theorem update_program_means_updateGraph {s : Sim} (hs : s.Static) (cur : Nat) (lst : List Nat) :
+    Prog.applyP s (Prog.execP s Gen.updateProg { data := s.g.data, cur := cur, lst := lst, reset := false }) = updateGraph s := by
+  rw [python_shape_is_reference.2.1]
+  apply Prog.execP_ref
+  intro e he hnil
+  obtain ⟨k0, hk0, _⟩ := hs.2.2.2.2.2.1 e he
+  rw [hnil] at hk0
+  cases hk0
 
 /-! ## 6. run level: every reported step, pauses and restarts included -/
 
